@@ -100,6 +100,8 @@ type Exec struct {
 	startModel Model
 	prunedAlts int
 	fixOrder   bool
+	fixDepth   int
+	records    []string
 	intSolved  int
 	modelStale bool
 	gaddr      map[*ssa.Global]uint64
@@ -156,6 +158,8 @@ func (ex *Exec) resetPath() {
 	ex.callStack = nil
 	ex.stepLimit = 0
 	ex.fixOrder = false
+	ex.fixDepth = 0
+	ex.records = nil
 	ex.arithInt = false
 	ex.globalsFrozen = ""
 	ex.tracing = false
